@@ -87,6 +87,9 @@ type Exec struct {
 	steps    int
 	inBg     bool
 	pcDirty  bool
+	model    map[string]uint64
+	pendingA []pendingAssert
+	modelOK  bool
 	clockN   int
 	lastNow  *Term
 	ghost    map[string]Value
@@ -183,7 +186,35 @@ func (ex *Exec) checkWith(c *Term) string {
 	return r
 }
 
+// checkWithModel is checkWith that also fetches a model when the answer is sat.
+func (ex *Exec) checkWithModel(c *Term) (string, map[string]uint64) {
+	if c.IsFalse() {
+		return "unsat", nil
+	}
+	s := ex.solver.smt(c)
+	ex.solver.send("(push 1)")
+	ex.solver.send("(assert " + s + ")")
+	r := ex.solver.CheckCounted()
+	var m map[string]uint64
+	if r == "sat" {
+		m = ex.solver.Model(ex.declared)
+	}
+	ex.solver.send("(pop 1)")
+	return r, m
+}
+
+func (ex *Exec) setModel(m map[string]uint64) {
+	if m == nil {
+		ex.modelOK = false
+		return
+	}
+	ex.model = m
+	ex.modelOK = true
+	ex.pcDirty = false
+}
+
 // branch decides a symbolic boolean, forking the exploration when both sides are feasible.
+// A model of the current path condition, when one is at hand, settles one side without a query.
 func (ex *Exec) branch(c *Term) bool {
 	if c.IsConst() {
 		return c.C == 1
@@ -195,9 +226,11 @@ func (ex *Exec) branch(c *Term) bool {
 		switch d {
 		case 1:
 			ex.assertPC(c)
+			ex.modelOK = false
 			return true
 		case 0:
 			ex.assertPC(mkNot(c))
+			ex.modelOK = false
 			return false
 		case 3: // forced true (other side infeasible)
 			return true
@@ -205,16 +238,37 @@ func (ex *Exec) branch(c *Term) bool {
 			return false
 		}
 	}
+	ex.flushAsserts()
 	ex.pos++
-	rt := ex.checkWith(c)
+	ex.res.Intercepts["q:branch-new"]++
+	known := -1
+	if ex.modelOK {
+		if c.eval(ex.model) == 1 {
+			known = 1
+		} else {
+			known = 0
+		}
+	}
+	var rt, rf string
+	var mT, mF map[string]uint64
+	if known == 1 {
+		rt = "sat"
+		ex.res.Intercepts["q:saved-by-model"]++
+	} else {
+		rt, mT = ex.checkWithModel(c)
+	}
 	if rt == "unsat" {
-		if ex.pcDirty {
-			// the path condition itself may have become infeasible through an assume
-			if ex.checkWith(mkNot(c)) == "unsat" {
-				ex.trace = append(ex.trace, 2)
-				ex.end("PRUNED", "assume made the path infeasible")
+		if known != 0 {
+			if ex.pcDirty {
+				// the path condition itself may have become infeasible through an assume
+				r, m := ex.checkWithModel(mkNot(c))
+				if r == "unsat" {
+					ex.trace = append(ex.trace, 2)
+					ex.end("PRUNED", "assume made the path infeasible")
+				}
+				ex.pcDirty = false
+				ex.setModel(m)
 			}
-			ex.pcDirty = false
 		}
 		ex.trace = append(ex.trace, 2)
 		return false
@@ -222,9 +276,18 @@ func (ex *Exec) branch(c *Term) bool {
 	if rt == "sat" {
 		ex.pcDirty = false
 	}
-	rf := ex.checkWith(mkNot(c))
+	if known == 0 {
+		rf = "sat"
+		ex.res.Intercepts["q:saved-by-model"]++
+	} else {
+		rf, mF = ex.checkWithModel(mkNot(c))
+	}
+	_ = mF
 	if rf == "unsat" {
 		ex.trace = append(ex.trace, 3)
+		if known != 1 {
+			ex.setModel(mT)
+		}
 		return true
 	}
 	if rt == "unknown" || rf == "unknown" {
@@ -237,6 +300,9 @@ func (ex *Exec) branch(c *Term) bool {
 	ex.pending = append(ex.pending, alt)
 	ex.trace = append(ex.trace, 1)
 	ex.assertPC(c)
+	if known != 1 {
+		ex.setModel(mT)
+	}
 	return true
 }
 
@@ -247,17 +313,27 @@ func (ex *Exec) assume(c *Term) {
 		return
 	}
 	if c.IsFalse() {
+		ex.flushAsserts()
 		ex.end("PRUNED", "assume(false)")
+	}
+	if ex.pos >= len(ex.prefix) {
+		ex.flushAsserts()
 	}
 	ex.assertPC(c)
 	if ex.pos >= len(ex.prefix) {
+		if ex.modelOK && c.eval(ex.model) == 1 {
+			return // the model at hand still satisfies the path condition
+		}
+		ex.modelOK = false
 		ex.pcDirty = true
+	} else {
+		ex.modelOK = false
 	}
 }
 
 // ensureFeasible prunes the path if pending assumptions made it infeasible.
 func (ex *Exec) ensureFeasible() {
-	if !ex.pcDirty {
+	if !ex.pcDirty || ex.modelOK {
 		return
 	}
 	r := ex.solver.Check()
